@@ -137,8 +137,10 @@ class MG:
             e = "at(%s.%s(), i%d)" % (e, g, k)
         return e
 
+    const_views = False
+
     def view(s, const=False):
-        return "auto m = sbepp::make_%sview<%s::messages::%s>(p, n);" % ("const_" if const else "", s.ns, s.M)
+        return "auto m = sbepp::make_%sview<%s::messages::%s>(p, n);" % ("const_" if (const or s.const_views) else "", s.ns, s.M)
 
     def cpp_prelude(s):
         return hgen.W_PRELUDE + "#include <%s/%s.hpp>\n" % (s.ns, s.ns) + CPP_COMMON
